@@ -28,7 +28,7 @@ def run(tier, corrupt=0):
     extremes = os.path.join(vlib.WORK, "c04_extremes.ndjson")
     g = vlib.tlc_ok("Gen_Totality", env={"OUT": extremes}, heap="4g")
     procs = 16
-    every, noise, rnd, light = (8, 300, 150, 3) if tier == "quick" else (1, 20000, 10000, 1)
+    every, noise, rnd, light = (8, 300, 150, 3) if tier == "quick" else (1, 3000, 1500, 2)
 
     def one(i):
         path = os.path.join(vlib.WORK, "c04_trace_%02d.ndjson" % i)
